@@ -669,7 +669,7 @@ class Gen:
         m = '(' + '+'.join(mention) + ')'
         out = {'unbalanced': [rng.choice(['0*%s+((1', '0*%s+*2)']) % m], 'unparsable': ['0*%s+ 2 3 $' % m],
                'undefined': ['0*%s+0*qq(1)' % m]}
-        for i, k in enumerate(rng.sample([55, 70, 90, 120, 180, 250, 330, 400], 3)):
+        for i, k in enumerate(rng.sample([55, 70, 90, 120, 180, 250, 330, 400], getattr(self, 'depths', 2))):
             out['deep-parens-%d' % i] = ['0*%s+%s1%s' % (m, '(' * k, ')' * k)]
             out['deep-brackets-%d' % i] = ['0*%s*%s1%s' % (m, '[' * k, ']' * k)]
             out['deep-calls-%d' % i] = ['0*%s+%s1%s' % (m, 'uf(' * k, ')' * k)]
@@ -783,6 +783,7 @@ class Gen:
 def generate(seed, tier, escalate):
     rng = random.Random(9000011 * seed + 9)
     g = Gen(rng)
+    g.depths = 3 if tier == 'thorough' else 2
     g.sum_corpus()
     g.list_corpus()
     g.format_corpus()
